@@ -113,6 +113,18 @@ CHECKS["C04"] = dict(
     design_ref="6/C04",
     technique="TLA+ model (Instances.tla) checked by TLC + TLC-generated interleavings executed on real instances + TLC pair-trace validation against solo/fresh runs",
 )
+CHECKS["C06"] = dict(
+    category="model_checking",
+    text="Blocking.tla: a packet from A through one middlebox (switch / router ACL / firewall with per-zone inbound+outbound ACLs) to B, staged as the code runs it "
+    "(interface in, each ACL verdict in order, ARP learning, hand-over to the middlebox's own software, forwarding, B's interface); TLC exhausts 3 topologies x zone "
+    "placements x one fault at a time (interfaces, ports, links, power) x 10 rule-list shapes on each ACL of the path x 20 packets: structurally blocked => never "
+    "arrives, a denied frame is final (action property), an open path delivers (liveness). Configurations drawn from the model are built from scenario dicts; every "
+    "frame A emits is followed by wrappers and validated by TLC against BlockingTrace.tla with the rule lists read back from the built ACL objects; for configurations "
+    "TLC evaluates as blocked an attack run from A (pings, nmap scans, database/web/FTP clients, data-manipulation bot, ransomware, DoS bot, remote login and commands) "
+    "is compared tick by tick with an idle twin on B's own state digest (PairTrace.tla); open configurations where B does change guard against vacuity.",
+    design_ref="6/C06",
+    technique="TLA+ model (Blocking.tla) checked by TLC incl. liveness + configurations from the model built in the simulator + TLC trace validation of frame walks and attack/idle pairs",
+)
 
 REASON_TODO = "check not built yet in this session (planned, see DESIGN.md 10); nothing is claimed for it"
 
